@@ -24,7 +24,7 @@ def run(ctx):
     r = g.r
     # --- parser level: every offset of small files
     pcases = []
-    nfiles = 6 if ctx.tier == 'quick' else 40
+    nfiles = 14 if ctx.tier == 'quick' else 40
     for _ in range(nfiles):
         log = g.log(book=[], exact=True, days=r.randint(1, 3), max_entries=3)
         src = g.render_log(log, varied=True)
@@ -75,7 +75,7 @@ def run(ctx):
         ctx.count('longline:%d' % c.meta['len'])
     # --- command level
     acases = []
-    for _ in range(3 if ctx.tier == 'quick' else 20):
+    for _ in range(6 if ctx.tier == 'quick' else 20):
         book = g.book(depth=1, exact=True, per_layer=2, unusual=0.1)
         if len(spec.book_map(book)) != len(book):
             continue
